@@ -178,7 +178,13 @@ class Gen:
             return decimal.Decimal(r.randint(0, 10**6))
         places = r.randint(1, 6)
         if c > 0.9:
-            places = r.randint(9, 14)   # many places, mantissa still 32 bit
+            # many places, 32-bit mantissa, positional notation (the
+            # adjusted exponent stays >= -6, so str() contains a '.')
+            places = r.randint(9, 14)
+            digits = r.randint(10**8, 2 * 10**9)
+            return decimal.Decimal(digits).scaleb(-places) \
+                if places - len(str(digits)) < 6 else \
+                decimal.Decimal(digits).scaleb(-(len(str(digits)) + 3))
         unscaled = r.randint(-10**6, 10**6) if c > 0.6 else \
             r.randint(0, 10**6)
         return decimal.Decimal(unscaled).scaleb(-places)
